@@ -12,6 +12,9 @@ FlavBoth == [m \in ModAB |-> IF m = "a" THEN "ok" ELSE "none"]          \* a: ow
 FlavRaise == [m \in ModAB |-> IF m = "a" THEN "raises" ELSE "ok"]
 FlavImports == [m \in ModABC |-> IF m = "a" THEN "imports" ELSE IF m = "c" THEN "ok" ELSE "none"]
 FlavRemoves == [m \in ModAB |-> IF m = "a" THEN "removes" ELSE "ok"]    \* a's glue removes b mid-scan (F9)
+\* "alias": a and b are two NAMES of one module object (a vendored package re-exported under its usual name) that has no
+\* glue function of its own; built-in glue is keyed by name, so each name's built-in glue is owed exactly once
+FlavAlias == [m \in ModAB |-> "none"]
 FlavMix3 == [m \in ModABC |-> IF m = "a" THEN "ok" ELSE IF m = "b" THEN "raises" ELSE "none"]
 
 =============================================================================
